@@ -192,6 +192,8 @@ fn explore(ctx: &Ctx) -> Outcome {
     rest.extend(lzfam::dense_runs(ctx.tier));
     rest.extend(lzfam::twin_blocks());
     rest.extend(lzfam::dense_displacements(ctx.tier));
+    rest.extend(lzfam::codec_closure());
+    rest.extend(lzfam::near_repeats());
     let t = rest
         .par_iter()
         .fold(Tally::new, |mut t, inp| {
